@@ -127,7 +127,7 @@ def lp_variable(ex, p, args, kwargs, e):
     # FRESH (T3 precondition): a literal name must not have been used for another variable of this problem
     if z3.is_app(v) and v.decl().name() == 'named':
         key = 'used:' + ''.join(name.atoms)
-        used = p.ghost.get(key, z3.Bool('USED0_' + ''.join(name.atoms)))
+        used = used_get(p, ''.join(name.atoms))
         ex.vc('no-raise/fresh-variable-name-%s@%d' % (''.join(name.atoms), e.lineno), p, z3.Not(used), line=e.lineno)
         p.ghost[key] = z3.BoolVal(True)
     p.ghost['feas'] = z3.And(feas_get(p), *dom) if dom else feas_get(p)
@@ -189,8 +189,16 @@ def lp_affine(ex, p, args, kwargs, e):
     return VAff(val_of(ex, args[0], p, e.lineno))
 
 
+def used_get(p, name):
+    """Has a variable of this literal name been created in the current problem?  (A new LpProblem has none.)"""
+    if 'used:' + name in p.ghost: return p.ghost['used:' + name]
+    return z3.BoolVal(False) if p.ghost.get('fresh_problem') is not None else z3.Bool('USED0_' + name)
+
+
 def lp_problem(ex, p, args, kwargs, e):
     p.ghost['feas'] = z3.BoolVal(True)
+    for k in [k for k in p.ghost if k.startswith('used:')]: p.ghost[k] = z3.BoolVal(False)
+    p.ghost['fresh_problem'] = z3.BoolVal(True)
     return VExt('LpProblem')
 
 
@@ -211,7 +219,7 @@ def spec_nu(ex, e, p):
 def spec_feas(ex, e, p): return VBool(feas_get(p))
 
 
-def spec_used(ex, e, p): return VBool(p.ghost.get('used:' + e.args[0].value, z3.Bool('USED0_' + e.args[0].value)))
+def spec_used(ex, e, p): return VBool(used_get(p, e.args[0].value))
 
 
 def spec_indexedvar(ex, e, p):
@@ -225,6 +233,16 @@ def spec_namedvar(ex, e, p):
 def spec_pairvar(ex, e, p):
     s = ex.ev(e.args[0], p); q = ex.ev(e.args[1], p)
     return VLpVar(Var.pairv(s.t, q.t))
+
+
+def spec_alphavar(ex, e, p):
+    s = ex.ev(e.args[0], p); q = ex.ev(e.args[1], p)
+    return VLpVar(Var.alphav(s.t, q.t))
+
+
+def spec_betavar(ex, e, p):
+    s = ex.ev(e.args[0], p); q = ex.ev(e.args[1], p)
+    return VLpVar(Var.betav(s.t, q.t))
 
 
 # ---- itertools.chain.from_iterable(rows) (T11): the concatenation of the rows, kept abstract:
@@ -269,6 +287,7 @@ def install(ex):
     ex.globals['LpMaximize'] = VExt('LpMaximize'); ex.globals['LpMinimize'] = VExt('LpMinimize')
     ex.lp_binop_impl = lp_binop; ex.lp_compare_impl = lp_compare; ex.lp_add_impl = lp_add
     ex.spec_ext['nu'] = spec_nu; ex.spec_ext['feas'] = spec_feas; ex.spec_ext['used'] = spec_used
+    ex.spec_ext['alphavar'] = spec_alphavar; ex.spec_ext['betavar'] = spec_betavar
     ex.spec_ext['pairvar'] = spec_pairvar; ex.spec_ext['indexedvar'] = spec_indexedvar; ex.spec_ext['namedvar'] = spec_namedvar
     ex.spec_ext['solved'] = spec_solved; ex.spec_ext['status'] = spec_status; ex.spec_ext['solves'] = spec_solves
     ex.spec_ext['hist'] = spec_hist; ex.spec_ext['solution_ok'] = spec_solution_ok
